@@ -1,0 +1,128 @@
+//go:build verif
+
+// Contracts for the contract-based verification harness in /verif (build tag "verif").
+// This file contains only comments (the //@ contract blocks, read by /verif/govc) and pure
+// ghost functions used inside them. It is never part of a normal build.
+package wasm
+
+// memInv is the representation invariant of a linear memory (C14): a whole number of pages,
+// within the maximum, the page capacity backed by the slice capacity.
+func memInv(m *MemoryInstance) bool {
+	return uint64(len(m.Buffer))&0xffff == 0 &&
+		uint64(len(m.Buffer)) <= uint64(m.Max)<<16 &&
+		m.Max <= 65536 &&
+		uint64(m.Cap)<<16 <= uint64(cap(m.Buffer)) &&
+		uint64(len(m.Buffer)) <= uint64(m.Cap)<<16
+}
+
+// memZeroTail: bytes between len and cap are zero, so that growing by re-slicing exposes zero pages.
+func memZeroTail(m *MemoryInstance) bool {
+	return verif_forall(func(i int) bool { return !(len(m.Buffer) <= i && i < cap(m.Buffer)) || m.Buffer[i] == 0 })
+}
+
+//@ prop C14 C02 C15
+//@ func (m *MemoryInstance) hasSize(offset uint32, byteCount uint64) bool
+//@   requires byteCount <= 1<<48
+//@   ensures r0 == (uint64(offset)+byteCount <= uint64(len(m.Buffer)))
+//@   modifies nothing
+
+//@ func (m *MemoryInstance) Size() uint32
+//@   ensures r0 == uint32(len(m.Buffer))
+//@   modifies nothing
+
+//@ func (m *MemoryInstance) Pages() (result uint32)
+//@   ensures result == uint32(uint64(len(m.Buffer)) >> 16)
+//@   modifies nothing
+
+//@ func MemoryPagesToBytesNum(pages uint32) (bytesNum uint64)
+//@   ensures bytesNum == uint64(pages) * 65536
+//@   modifies nothing
+
+//@ func memoryBytesNumToPages(bytesNum uint64) (pages uint32)
+//@   ensures pages == uint32(bytesNum / 65536)
+//@   modifies nothing
+
+//@ func (m *MemoryInstance) Read(offset, byteCount uint32) ([]byte, bool)
+//@   requires memInv(m)
+//@   ensures r1 == (uint64(offset)+uint64(byteCount) <= uint64(len(m.Buffer)))
+//@   ensures r1 ==> len(r0) == int(byteCount) && cap(r0) == int(byteCount) && verif_slice_at(r0, m.Buffer, int(offset))
+//@   ensures !r1 ==> r0 == nil
+//@   modifies nothing
+
+//@ func (m *MemoryInstance) ReadByte(offset uint32) (byte, bool)
+//@   requires memInv(m)
+//@   ensures r1 == (uint64(offset) < uint64(len(m.Buffer)))
+//@   ensures r1 ==> r0 == m.Buffer[offset]
+//@   modifies nothing
+
+//@ func (m *MemoryInstance) ReadUint16Le(offset uint32) (uint16, bool)
+//@   requires memInv(m)
+//@   ensures r1 == (uint64(offset)+2 <= uint64(len(m.Buffer)))
+//@   ensures r1 ==> r0 == uint16(m.Buffer[offset]) | uint16(m.Buffer[uint64(offset)+1])<<8
+//@   modifies nothing
+
+//@ func (m *MemoryInstance) readUint32Le(offset uint32) (uint32, bool)
+//@   requires memInv(m)
+//@   ensures r1 == (uint64(offset)+4 <= uint64(len(m.Buffer)))
+//@   ensures r1 ==> r0 == uint32(m.Buffer[offset]) | uint32(m.Buffer[uint64(offset)+1])<<8 | uint32(m.Buffer[uint64(offset)+2])<<16 | uint32(m.Buffer[uint64(offset)+3])<<24
+//@   modifies nothing
+
+//@ func (m *MemoryInstance) readUint64Le(offset uint32) (uint64, bool)
+//@   requires memInv(m)
+//@   ensures r1 == (uint64(offset)+8 <= uint64(len(m.Buffer)))
+//@   ensures r1 ==> uint32(r0) == uint32(m.Buffer[offset]) | uint32(m.Buffer[uint64(offset)+1])<<8 | uint32(m.Buffer[uint64(offset)+2])<<16 | uint32(m.Buffer[uint64(offset)+3])<<24
+//@   ensures r1 ==> uint32(r0>>32) == uint32(m.Buffer[uint64(offset)+4]) | uint32(m.Buffer[uint64(offset)+5])<<8 | uint32(m.Buffer[uint64(offset)+6])<<16 | uint32(m.Buffer[uint64(offset)+7])<<24
+//@   modifies nothing
+
+//@ func (m *MemoryInstance) WriteByte(offset uint32, v byte) bool
+//@   requires memInv(m)
+//@   ensures r0 == (uint64(offset) < uint64(len(m.Buffer)))
+//@   ensures r0 ==> m.Buffer[offset] == v
+//@   ensures forall i int :: 0 <= i && i < cap(m.Buffer) && (!r0 || i != int(offset)) ==> m.Buffer[i] == old[byte](m.Buffer[i])
+//@   ensures len(m.Buffer) == old(len(m.Buffer))
+//@   modifies elems(m.Buffer)
+
+//@ func (m *MemoryInstance) writeUint32Le(offset uint32, v uint32) bool
+//@   requires memInv(m)
+//@   ensures r0 == (uint64(offset)+4 <= uint64(len(m.Buffer)))
+//@   ensures r0 ==> uint32(m.Buffer[offset]) | uint32(m.Buffer[uint64(offset)+1])<<8 | uint32(m.Buffer[uint64(offset)+2])<<16 | uint32(m.Buffer[uint64(offset)+3])<<24 == v
+//@   ensures forall i int :: 0 <= i && i < cap(m.Buffer) && (!r0 || i < int(offset) || i >= int(offset)+4) ==> m.Buffer[i] == old[byte](m.Buffer[i])
+//@   modifies elems(m.Buffer)
+
+//@ func (m *MemoryInstance) writeUint64Le(offset uint32, v uint64) bool
+//@   requires memInv(m)
+//@   ensures r0 == (uint64(offset)+8 <= uint64(len(m.Buffer)))
+//@   ensures r0 ==> uint32(m.Buffer[offset]) | uint32(m.Buffer[uint64(offset)+1])<<8 | uint32(m.Buffer[uint64(offset)+2])<<16 | uint32(m.Buffer[uint64(offset)+3])<<24 == uint32(v)
+//@   ensures r0 ==> uint32(m.Buffer[uint64(offset)+4]) | uint32(m.Buffer[uint64(offset)+5])<<8 | uint32(m.Buffer[uint64(offset)+6])<<16 | uint32(m.Buffer[uint64(offset)+7])<<24 == uint32(v>>32)
+//@   ensures forall i int :: 0 <= i && i < cap(m.Buffer) && (!r0 || i < int(offset) || i >= int(offset)+8) ==> m.Buffer[i] == old[byte](m.Buffer[i])
+//@   modifies elems(m.Buffer)
+
+//@ func (m *MemoryInstance) WriteUint16Le(offset uint32, v uint16) bool
+//@   requires memInv(m)
+//@   ensures r0 == (uint64(offset)+2 <= uint64(len(m.Buffer)))
+//@   ensures r0 ==> uint16(m.Buffer[offset]) | uint16(m.Buffer[uint64(offset)+1])<<8 == v
+//@   ensures forall i int :: 0 <= i && i < cap(m.Buffer) && (!r0 || i < int(offset) || i >= int(offset)+2) ==> m.Buffer[i] == old[byte](m.Buffer[i])
+//@   modifies elems(m.Buffer)
+
+//@ func (m *MemoryInstance) Write(offset uint32, val []byte) bool
+//@   requires memInv(m)
+//@   ensures r0 == (uint64(offset)+uint64(len(val)) <= uint64(len(m.Buffer)))
+//@   ensures r0 ==> forall i int :: 0 <= i && i < len(val) ==> m.Buffer[int(offset)+i] == old[byte](val[i])
+//@   ensures forall i int :: 0 <= i && i < cap(m.Buffer) && (!r0 || i < int(offset) || i >= int(offset)+len(val)) ==> m.Buffer[i] == old[byte](m.Buffer[i])
+//@   modifies elems(m.Buffer)
+
+//@ iface (me ModuleEngine) MemoryGrown()
+//@   modifies nothing
+
+//@ func (m *MemoryInstance) Grow(delta uint32) (result uint32, ok bool)
+//@   requires memInv(m) && memZeroTail(m)
+//@   requires !m.Shared && m.expBuffer == nil && m.ownerModuleEngine != nil
+//@   ensures[ok-iff-within-max] ok == (delta == 0 || uint64(old(len(m.Buffer)))>>16 + uint64(delta) <= uint64(m.Max))
+//@   ensures[returns-previous-size] ok ==> result == uint32(uint64(old(len(m.Buffer))) >> 16)
+//@   ensures[new-size] ok ==> uint64(len(m.Buffer)) == uint64(old(len(m.Buffer))) + uint64(delta)<<16
+//@   ensures[failure-changes-nothing] !ok ==> len(m.Buffer) == old(len(m.Buffer)) && result == 0 && verif_slice_at(m.Buffer, old(m.Buffer), 0)
+//@   ensures[inv] memInv(m) && memZeroTail(m)
+//@   ensures[limits-unchanged] m.Max == old(m.Max) && m.Min == old(m.Min)
+//@   ensures[contents-preserved] forall i int :: 0 <= i && i < old(len(m.Buffer)) ==> m.Buffer[i] == old[byte](m.Buffer[i])
+//@   ensures[new-pages-zero] forall i int :: old(len(m.Buffer)) <= i && i < len(m.Buffer) ==> m.Buffer[i] == 0
+//@   modifies m.Buffer, m.Cap, elems(m.Buffer)
